@@ -260,7 +260,13 @@ def run(ctx):
         for name, ev in pos.items():
             if ev[0] != 'disj':
                 continue
-            for nst in (('left', 'balanced', rng, 'derived') if len(ev[1]) >= 3 else ('derived',)):
+            variants = [(nst, ev) for nst in (('left', 'balanced', rng, 'derived') if len(ev[1]) >= 3 else ('derived',))]
+            if n % 3 == 0:
+                # alternatives may share one alias (each binds it for the events that follow)
+                shared = tuple(('ev', a[1], 'Sh', A.replace_var(a[3], a[2], A.var('Sh')) if (a[3] is not None and a[2]) else a[3])
+                               if (a[2] is not None or rng.random() < 0.5) else a for a in ev[1])
+                variants.append(('right', ('disj', shared)))
+            for nst, ev in variants:
                 hplapi.NESTING[0] = nst
                 try:
                     ob = hplapi.outcome(hplapi.build_event, ev)
